@@ -32,7 +32,7 @@ type Profile struct {
 	KEKOutage   bool // C05
 	RuleChanges bool // C01/C08: a caller's grants change between requests (same address)
 	DiskFaults  bool // C04 (concurrent engine): the disk is full during chosen steps
-	HugeValues  bool // a tenth of the runs also put values beyond a mebibyte
+	HugeValues  bool // one run in 25 also puts values beyond a mebibyte
 	Soak        bool // one run in forty ends with a long stretch (1000-2000) of cheap writes in one process
 	Symlinks    bool // the database path may become a symbolic link before a reopen
 	Dashboard   bool // the HTML listing at / is fetched too
@@ -119,7 +119,7 @@ func RunSeq(s *kernel.Sim, prof *Profile) *Env {
 	corruptRun := prof.Corruptions
 	outageRun := prof.KEKOutage && t.Bool(1, 2)
 	e.diskFaultRun = prof.DiskFaults && t.Bool(1, 2)
-	e.hugeRun = prof.HugeValues && t.Bool(1, 10)
+	e.hugeRun = prof.HugeValues && t.Bool(1, 25)
 	soak := 0
 	if prof.Soak && t.Bool(1, 40) {
 		soak = 1030 + t.Choice(1100)
@@ -246,16 +246,22 @@ func (e *Env) dashboard(c *Caller) {
 	if rec.Code != 200 {
 		return
 	}
+	// (html/template renders a NUL as U+FFFD)
+	norm := func(n string) string { return strings.ReplaceAll(n, "\x00", "\uFFFD") }
 	want := map[string]bool{}
 	for _, i := range e.listFor(c) {
-		want[i.Name] = true
+		want[norm(i.Name)] = true
+	}
+	all := map[string]bool{}
+	for _, n := range e.Model.Names() {
+		all[norm(n)] = true
 	}
 	shown := map[string]bool{}
 	for _, m := range dashRow.FindAllSubmatch(body, -1) {
 		shown[html.UnescapeString(string(m[1]))] = true
 	}
 	for _, n := range sortedBoolKeys(shown) {
-		if !want[n] && e.Model.Has(n) {
+		if !want[n] && all[n] {
 			e.fail("list", "caller %d GET /: the HTML listing shows secret %q, on which the caller holds no info grant (rules %v)", c.ID, n, c.Rules)
 		}
 	}
